@@ -321,6 +321,15 @@ func genMuxFacts(repo, out string, _ []string) error {
 		fmt.Fprintf(&b, "\n  ⟨%q, %q, %q,\n    %q,\n    [%s]⟩", c.file, c.fn, c.method, c.stmt, strings.Join(ex, ", "))
 	}
 	b.WriteString("]\n\n")
+	// process-local state of the applications (appstate.go)
+	asFields, asWrites, err := appStateFacts(repo)
+	if err != nil {
+		return err
+	}
+	b.WriteString("/-- Fields of every type in apps/** with a BeginBlock/EndBlock/ExecuteTx/ExecuteMessage method. -/\n")
+	b.WriteString(leanList("appStateFields", asFields))
+	b.WriteString("/-- Statements in methods of those types that write through the receiver. -/\n")
+	b.WriteString(leanList("appStateWrites", asWrites))
 	b.WriteString("end Generated.MuxFacts\n")
 	return os.WriteFile(out, []byte(b.String()), 0o644)
 }
